@@ -9,10 +9,15 @@ def reasonOf (j : Json) : R Reason := do
   | some r => pure r
   | none => throw s!"not a reason value: {j.compress}"
 
-def reasonOpt (j : Option Json) : R (Option Reason) :=
+/-- `null` = no attribute / None; `{"m": value}` = an AuthReason member; `{"s": str}` = a plain string; `{"o": …}` = other -/
+def declaredOf (j : Option Json) : R Declared :=
   match j with
-  | none => pure none
-  | some v => do pure (some (← reasonOf v))
+  | none => pure .absent
+  | some v =>
+    match fieldOpt v "m", fieldOpt v "s" with
+    | some m, _ => do pure (.member (← reasonOf m))
+    | none, some s => do pure (.text (← str s))
+    | none, none => pure .other
 
 def strList (j : Json) : R (List Str) := do (← arr j).mapM str
 
@@ -20,8 +25,8 @@ def excOf (j : Json) : R Exc := do
   let k ← rawStr (← field j "k")
   match k with
   | "af" => pure (.authFailure (← reasonOf (← field j "r")) (← strF j "d"))
-  | "ve" => pure (.valueError (← reasonOpt (fieldOpt j "decl")) (← strF j "s") (← strF j "t"))
-  | "pe" => pure (.permissionError (← reasonOpt (fieldOpt j "decl")) (← strF j "s"))
+  | "ve" => pure (.valueError (← declaredOf (fieldOpt j "decl")) (← strF j "s") (← strF j "t"))
+  | "pe" => pure (.permissionError (← declaredOf (fieldOpt j "decl")) (← strF j "s"))
   | "un" => pure (.unavailable (← intF j "n") (← strF j "d"))
   | "other" => pure (.other (← strF j "t"))
   | _ => throw s!"unknown exception kind {k}"
